@@ -27,7 +27,7 @@ type incGraph struct {
 	DangleJ int    `json:"dangle_j"`
 	Depth   int    `json:"depth"`     // 0 = default
 	BigFile int    `json:"big_file"`  // -1 = none; file made larger than the size limit
-	Form    string `json:"path_form"` // "", "dot", "abs", "home"
+	Form    string `json:"path_form"` // "", "dot", "abs", "home", "abs-dot", "abs-slash", "abs-dotdot", "mixed"
 }
 
 func (g incGraph) edge(i, j int) bool { return g.Adj&(1<<uint(i*g.N+j)) != 0 }
@@ -73,7 +73,22 @@ func (g incGraph) content(dir, home string, i int) string {
 		b.WriteString("; pad\n")
 	}
 	for _, d := range g.directives(i) {
-		switch g.Form {
+		form := g.Form
+		if form == "mixed" {
+			// the spelling depends on the including file: the same target is
+			// named canonically by even files and non-canonically by odd ones
+			form = ""
+			if i%2 == 1 {
+				form = "abs-dot"
+			}
+		}
+		switch form {
+		case "abs-dot":
+			b.WriteString("include " + dir + "/./" + d.Target + "\n")
+		case "abs-slash":
+			b.WriteString("include " + dir + "//" + d.Target + "\n")
+		case "abs-dotdot":
+			b.WriteString("include " + dir + "/sub/../" + d.Target + "\n")
 		case "dot":
 			b.WriteString("include ./" + d.Target + "\n")
 		case "abs":
@@ -93,6 +108,7 @@ func (g incGraph) content(dir, home string, i int) string {
 }
 
 func (g incGraph) materialise(dir, home string) {
+	_ = os.MkdirAll(filepath.Join(dir, "sub"), 0o755) // for the "abs-dotdot" path form
 	for i := 0; i < g.N; i++ {
 		_ = os.WriteFile(filepath.Join(dir, incName(i)), []byte(g.content(dir, home, i)), 0o644)
 	}
@@ -558,7 +574,7 @@ func checkC10(c *core.Ctx) {
 		}
 	}
 	// D. path forms on all 3-file graphs
-	for _, form := range []string{"dot", "abs", "home"} {
+	for _, form := range []string{"dot", "abs", "home", "abs-dot", "abs-slash", "abs-dotdot", "mixed"} {
 		for adj := uint32(0); adj < 1<<9; adj++ {
 			g := base(3, adj)
 			g.Form = form
